@@ -5,6 +5,7 @@ import sys
 
 from lib import gN, gbool, glist, gopt, hexs
 from props import c07_live
+from props import c07_life
 
 HEADER = "From CJ Require Import Common.Base C06.Model C07.Model C07.Run.\n"
 PKG = "pkg/station/lib"
@@ -512,6 +513,8 @@ def run(ctx):
     run_table(ctx)
     # the liveness verdict through the real tester stack, over histories sharing one cache state
     c07_live.run_live(ctx, sys.modules[__name__])
+    # known generation = known to the phantom subnet file in force: histories of messages and reloads over one real manager
+    c07_life.run_life(ctx, sys.modules[__name__])
 
 
 def run_table(ctx):
